@@ -82,7 +82,9 @@ NcgAB == [k |-> "ncg", r |-> [k |-> "seq", xs |-> <<Chr(97), Chr(98)>>]]        
 NcgABorBA == [k |-> "ncg", r |-> [k |-> "alt", xs |-> <<[k |-> "seq", xs |-> <<Chr(97), Chr(98)>>],
                                                       [k |-> "seq", xs |-> <<Chr(98), Chr(97)>>]>>]]          \* (?:ab|ba)
 NcgABorB == [k |-> "ncg", r |-> [k |-> "alt", xs |-> <<[k |-> "seq", xs |-> <<Chr(97), Chr(98)>>], Chr(98)>>]]   \* (?:ab|b)
-LvOptFix == {BolL, Chr(98), NcgAB, NcgABorBA, NcgABorB}
+NcgABorBAorB == [k |-> "ncg", r |-> [k |-> "alt", xs |-> <<[k |-> "seq", xs |-> <<Chr(97), Chr(98)>>],
+                                                         [k |-> "seq", xs |-> <<Chr(98), Chr(97)>>], Chr(98)>>]]   \* (?:ab|ba|b)
+LvOptFix == {BolL, Chr(98), NcgAB, NcgABorBA, NcgABorB, NcgABorBAorB}
 LvLawFix == {Chr(98), NcgAB, NcgABorB}
 QLawFix == {Q(2, 2, FALSE, "n"), Q(2, -1, FALSE, "n"), Q(1, 2, FALSE, "n"), QStar}         \* multi-character fixed-length bodies, anchors
 QFix == {Q(2, 2, FALSE, "n"), Q(1, 2, FALSE, "n"), Q(2, -1, FALSE, "n"), Q(0, 2, FALSE, "n"), QStar, QPlusL}
@@ -132,7 +134,11 @@ QOptOnly == {QOpt}
 QPlusOnly == {QPlus}
 LvWs == {Chr(97), Cls(FALSE, <<IC(97), IC(32)>>), Chr(91), Chr(93), Chr(92), Bare(IE("d")),
          Bare([t |-> "p", neg |-> FALSE, name |-> "Lu"]), Cls(TRUE, <<IC(9), IR(97, 98)>>),
-         ClsSub(FALSE, <<IR(97, 99), IC(32)>>, Cls(FALSE, <<IC(98)>>))}                  \* [a-c -[b]] : a subtraction
+         ClsSub(FALSE, <<IR(97, 99), IC(32)>>, Cls(FALSE, <<IC(98)>>)),                  \* [a-c -[b]] : a subtraction
+         Cls(FALSE, <<IC(93), IC(97)>>),                                                   \* [\]a] : an escaped ] inside a class
+         Cls(FALSE, <<[t |-> "p", neg |-> FALSE, name |-> "Lu"], IC(97)>>)}                \* [\p{Lu}a] : a name inside a class
+LvWsCls == {Cls(FALSE, <<IC(93), IC(32)>>), Cls(TRUE, <<IC(93), IC(9), IC(32)>>), Cls(FALSE, <<IC(97), IC(93), IC(32), IC(98)>>),
+            Cls(FALSE, <<IC(32), IC(93)>>), Chr(97)}                 \* [\] ] [^\]<TAB> ] [a\] b] [ \]] : white space after an escaped ] in a class
 NcgA == [k |-> "ncg", r |-> Chr(97)]                                                            \* (?:a)
 GrpOptB == [k |-> "grp", n |-> 0, r |-> [k |-> "rep", r |-> Chr(98), min |-> 0, max |-> 1, lazy |-> FALSE, q |-> "s"]]   \* (b?)
 LvWsNest == {NcgA, GrpOptB, Chr(97)}          \* (?: ...) in front of nested groups that match nothing: what analyze's nesting depends on
@@ -154,7 +160,10 @@ T1_RoundTrip == Done => LET pr == Parse(Render(Ast), TRUE) IN pr.v = "ok" /\ pr.
 T2On(r, ng, F, strict) == \A s \in Inputs : \A i \in 1..Len(s)+1 :
         LET o == Ord(r, s, i, NoCaps(ng), F)  p == Paths(r, s, i, NoCaps(ng), F) IN
         /\ ToSet(o) \subseteq p
-        /\ (o = <<>>) = (p = {})                                 \* is_match is order-free for EVERY pattern
+        /\ (HasBref(r) /\ ~strict) \/ ((o = <<>>) = (p = {}))   \* is_match is order-free for every pattern outside LangUnspec
+                                                                 \* (with a back-reference AND an empty-matching loop body the rule
+                                                                 \* "an empty iteration is not continued" can prune the only path
+                                                                 \* on which the group holds what \N needs: ((?:$|b))+\1)
         /\ strict => ToSet(o) = p
         /\ FirstAt(r, ng, s, i, F) = (IF o = <<>> THEN <<>> ELSE o[1])     \* T2b: the backtracking evaluator
 T2_OrderFree == Done => LET N == Number(stk[1]) IN T2On(N.r, N.st.ng, fl, Strict(N.r))
@@ -195,6 +204,7 @@ Sources(a, F) ==
   (IF "base" \in Variants THEN {<<pat, FlagCps(F), TRUE>>} ELSE {})
   \cup (IF "xsd" \in Variants THEN {<<pat, FlagCps(F), FALSE>>} ELSE {})
   \cup (IF "ws" \in Variants THEN WsSources(pat, F) ELSE {})
+  \cup (IF "wsxsd" \in Variants THEN {<<w[1], w[2], FALSE>> : w \in WsSources(pat, F)} ELSE {})
   \cup (IF "ws2" \in Variants THEN Ws2Sources(pat, F) ELSE {})
 (* law pairs (C20): both spellings are replayed together and must agree with the spec AND with each other *)
 LawPairs(a, F) == {w \in Rewrites(a) : w.law # "uncapture" \/ ~HasBref(a)}
